@@ -28,8 +28,8 @@ Definition site_table : list (string * string * string * site_kind) := [
   ("analysis/httpapi", "selectFileByPos", "map[string]*packages.Package", FirstHitUnique);
   ("analysis/httpapi", "selectPackage", "map[string]*packages.Package", FirstHitUnique);
   ("cmd", "Config.run", "main.Config", CollectThenSort);
-  ("generator", "Cache.Imports", "generator.Cache", CollectThenSort);
-  ("generator", "Cache.Imports", "map[string]bool", CollectThenSort);
+  ("generator", "Cache.ImportsFor", "generator.Cache", CollectThenSort);
+  ("generator", "Cache.ImportsFor", "map[string]bool", CollectThenSort);
   ("generator/dart", "Generate", "map[string]*dart.outFile", SetOfFiles);
   ("generator/dart", "Generate", "map[string]bool", CollectThenSort)
 ].
